@@ -1,11 +1,302 @@
 /-
 C13 — circular problems: a successful solve holds across the sequence origin.
+Theorems about Model/Circular.lean (on top of Model/Solver.lean).
 -/
 import DnaModel.Model.Circular
+import DnaModel.Props.C01
+import DnaModel.Props.C12
+import Mathlib.Data.List.Forall2
 set_option linter.unusedVariables false
+set_option linter.unusedSimpArgs false
+set_option linter.unusedSectionVars false
 namespace Dna.C13
 open Dna Solver Circular
+variable {σ K : Type} [BEq σ] [Score K]
+
+/-! ### the three-copy view reads the circular sequence -/
 
 theorem triple_length (s : Seq) : (triple s).length = 3 * s.length := by simp [triple]; omega
+
+/-- position `i` of the three-copy sequence is position `i mod L` of the circular sequence -/
+theorem triple_getElem? (s : Seq) (i : Nat) (hi : i < 3 * s.length) : (triple s)[i]? = s[i % s.length]? := by
+  have hL : 0 < s.length := by omega
+  simp only [triple]
+  by_cases h1 : i < s.length
+  · rw [List.getElem?_append_left (by simp; omega), List.getElem?_append_left h1, Nat.mod_eq_of_lt h1]
+  · by_cases h2 : i < 2 * s.length
+    · rw [List.getElem?_append_left (by simp; omega), List.getElem?_append_right (by omega)]
+      congr 1
+      rw [Nat.mod_eq_sub_mod (by omega), Nat.mod_eq_of_lt (by omega)]
+    · rw [List.getElem?_append_right (by simp; omega)]
+      simp only [List.length_append]
+      congr 1
+      have : i % s.length = i - (s.length + s.length) := by
+        rw [Nat.mod_eq_sub_mod (by omega), Nat.mod_eq_sub_mod (by omega), Nat.mod_eq_of_lt (by omega)]
+        omega
+      rw [this]
+
+/-- the linear reading `sequence + sequence[:m]` used to look for something across the origin (`m ≤ L`) is a
+    contiguous part of the three-copy sequence: whatever occurs across the junction occurs in the view -/
+theorem cyclic_infix (s : Seq) (m : Nat) : (s ++ s.take m) <:+: triple s := by
+  refine ⟨[], s.drop m ++ s, ?_⟩
+  simp only [triple, List.nil_append, List.append_assoc]
+  rw [← List.append_assoc (s.take m), List.take_append_drop]
+
+/-- so a pattern instance (any contiguous word) found in `sequence + sequence[:m]` is found in the view -/
+theorem occurs_across_origin (s w : Seq) (m : Nat) (h : w <:+: s ++ s.take m) : w <:+: triple s :=
+  List.IsInfix.trans h (cyclic_infix s m)
+
+/-- every rotation of the circular sequence is a window of the view starting in the central copy's
+    left neighbour: the central copy sees the origin on both sides -/
+theorem rotation_infix (s : Seq) (p : Nat) : (s.drop p ++ s.take p) <:+: triple s := by
+  refine ⟨s.take p, s.drop p ++ s, ?_⟩
+  have e := List.take_append_drop p s
+  simp only [triple, List.append_assoc]
+  rw [← List.append_assoc (s.take p) (s.drop p), e, ← List.append_assoc (s.take p) (s.drop p), e]
+
+/-! ### `_replace_sequence`: the majority rule -/
+
+theorem loony_left (x y : Char) : loony y x x = y := by
+  simp only [loony]; split <;> simp_all
+theorem loony_mid (x y : Char) : loony x y x = y := by
+  simp only [loony]; split <;> simp_all
+theorem loony_right (x y : Char) : loony x x y = y := by simp [loony]
+
+theorem consensus_length (t : Seq) : (consensus t).length = t.length / 3 := by simp [consensus]
+
+theorem majority_length (t : Seq) (h : 3 ∣ t.length) : (majority t).length = t.length := by
+  simp only [majority, triple_length, consensus_length]; omega
+
+/-- a consistent three-copy sequence is left as it is -/
+theorem consensus_triple (s : Seq) : consensus (triple s) = s := by
+  apply List.ext_getElem?
+  intro i
+  simp only [consensus, triple_length]
+  have hdiv : 3 * s.length / 3 = s.length := by omega
+  rw [hdiv]
+  by_cases hi : i < s.length
+  · rw [List.getElem?_map, List.getElem?_range hi]
+    simp only [Option.map_some, List.getD_eq_getElem?_getD]
+    rw [triple_getElem? s i (by omega), triple_getElem? s (i + s.length) (by omega), triple_getElem? s (i + 2 * s.length) (by omega)]
+    have e1 : (i + s.length) % s.length = i % s.length := by simp
+    have e2 : (i + 2 * s.length) % s.length = i % s.length := by simp
+    rw [e1, e2, Nat.mod_eq_of_lt hi, List.getElem?_eq_getElem hi]
+    simp [loony]
+  · rw [List.getElem?_eq_none (by simp; omega), List.getElem?_eq_none (by omega)]
+
+theorem majority_triple (s : Seq) : majority (triple s) = triple s := by simp [majority, consensus_triple]
+
+/-- an edit confined to one copy (here described position-wise: at every residue class at most one of the three
+    copies differs from `s`) is mirrored: the result is the consistent view of the edited circular sequence -/
+theorem consensus_edit (s t u : Seq) (ht : t.length = 3 * s.length) (hu : u.length = s.length)
+    (h : ∀ i, i < s.length →
+      (t[i]? = u[i]? ∧ t[i + s.length]? = s[i]? ∧ t[i + 2 * s.length]? = s[i]?) ∨
+      (t[i]? = s[i]? ∧ t[i + s.length]? = u[i]? ∧ t[i + 2 * s.length]? = s[i]?) ∨
+      (t[i]? = s[i]? ∧ t[i + s.length]? = s[i]? ∧ t[i + 2 * s.length]? = u[i]?)) :
+    consensus t = u := by
+  apply List.ext_getElem?
+  intro i
+  simp only [consensus, ht]
+  have hdiv : 3 * s.length / 3 = s.length := by omega
+  rw [hdiv]
+  by_cases hi : i < s.length
+  · rw [List.getElem?_map, List.getElem?_range hi]
+    simp only [Option.map_some, List.getD_eq_getElem?_getD]
+    have hs : s[i]? = some s[i] := List.getElem?_eq_getElem hi
+    have huu : u[i]? = some (u[i]'(by omega)) := List.getElem?_eq_getElem (by omega)
+    rcases h i hi with ⟨a, b, c⟩ | ⟨a, b, c⟩ | ⟨a, b, c⟩ <;>
+      simp only [a, b, c, hs, huu, Option.getD_some, loony_left, loony_mid, loony_right]
+  · rw [List.getElem?_eq_none (by simp; omega), List.getElem?_eq_none (by omega)]
+
+theorem middle_triple (s : Seq) : middle (triple s) s.length = s := by
+  simp [middle, triple]
+
+theorem middle_length (t : Seq) (L : Nat) (h : t.length = 3 * L) : (middle t L).length = L := by
+  simp [middle]; omega
+
+/-! ### the final check: return ⇒ every constraint of the view passes on the view of the returned sequence -/
+
+theorem evalList_ok (ops : SpecOps σ K) (s : Seq) (cs : List σ) (st st' : St σ K) (evs : List (Eval K))
+    (h : evalList ops s cs st = (.ok evs, st')) :
+    List.Forall₂ (fun c e => ∃ k, ops.evaluate c s k = .ok e) cs evs := by
+  induction cs generalizing st st' evs with
+  | nil => simp only [evalList, Prod.mk.injEq, Except.ok.injEq] at h; rw [← h.1]; exact List.Forall₂.nil
+  | cons c cs ih =>
+    simp only [evalList] at h
+    split at h
+    · simp at h
+    · rename_i e st1 hev
+      split at h
+      · simp at h
+      · rename_i r st2 hr
+        simp only [Prod.mk.injEq, Except.ok.injEq] at h
+        rw [← h.1]
+        exact List.Forall₂.cons ⟨_, C01.evalAt_ok ops c s st st1 e hev⟩ (ih st1 st2 r hr)
+
+theorem passes_of_forall₂ (ops : SpecOps σ K) (t : Seq) (cs : List σ) (evs : List (Eval K))
+    (hf : List.Forall₂ (fun c e => ∃ k, ops.evaluate c t k = .ok e) cs evs) (hall : evs.all (·.passes) = true) :
+    ∀ c ∈ cs, C01.PassesAt ops c t := by
+  induction hf with
+  | nil => simp
+  | cons hce _ ih =>
+    rename_i c' e' cs' es' _
+    simp only [List.all_cons, Bool.and_eq_true] at hall
+    intro c hc
+    rcases List.mem_cons.1 hc with rfl | hc
+    · obtain ⟨k', hk'⟩ := hce
+      exact ⟨k', e', hk', hall.1⟩
+    · exact ih hall.2 c hc
+
+theorem circFinalCheck_ok (ops : SpecOps σ K) (views : Nat → Option (View σ)) (k : Nat) (s : Seq) (st st' : St σ K)
+    (h : circFinalCheck ops views k s st = (.ok (), st')) :
+    ∃ v F t st1, buildView views k s st = (.ok (v, F, t), st1) ∧ ∀ c ∈ v.constraints, C01.PassesAt ops c t := by
+  simp only [circFinalCheck] at h
+  split at h
+  · simp at h
+  · rename_i v F t st1 hb
+    refine ⟨v, F, t, st1, hb, ?_⟩
+    split at h
+    · simp at h
+    · rename_i evs st2 hev
+      split at h
+      · rename_i hall
+        exact passes_of_forall₂ ops t _ _ (evalList_ok ops t v.constraints st1 st2 evs hev) hall
+      · split at h
+        · simp at h
+        · split at h <;> simp at h
+
+/-- **C13, main clause.**  If `CircularDnaOptimizationProblem.resolve_constraints()` returns, then a fresh
+    three-copy view of the returned sequence was built and *every* constraint of that view — the whole-sequence
+    ones stretched over the three copies, the located ones in each copy, the hard ones included — was evaluated on
+    it and passed.  For arbitrary specifications, settings and random tapes. -/
+theorem circ_resolve_ok (ops : SpecOps σ K) (sett : Settings) (views : Nat → Option (View σ)) (s s' : Seq) (st st' : St σ K)
+    (h : circResolve ops sett views s st = (.ok (), s', st')) :
+    ∃ v F t, ∃ st0 st1 : St σ K, buildView views 1 s' st0 = (.ok (v, F, t), st1) ∧ ∀ c ∈ v.constraints, C01.PassesAt ops c t := by
+  simp only [circResolve] at h
+  split at h
+  · simp at h
+  · rename_i v F t st1 hb
+    split at h
+    · simp at h
+    · rename_i t' st2 hre
+      cases hfc : circFinalCheck ops views 1 (middle t' s.length) (logSeq (middle t' s.length) st2) with
+      | mk r st3 =>
+        rw [hfc] at h
+        simp only [Prod.mk.injEq] at h
+        obtain ⟨rfl, rfl, rfl⟩ := h
+        obtain ⟨v2, F2, t2, st4, hb2, hp⟩ := circFinalCheck_ok ops views 1 _ _ _ hfc
+        exact ⟨v2, F2, t2, _, st4, hb2, hp⟩
+
+/-- when the returned sequence's three-copy sequence already lies in the view's mutation space (always the case
+    for restrictions that are periodic, cf. the correspondence runs), the view evaluated by the final check is
+    exactly `3 × sequence`: "passes across the origin" in the sense of `cyclic_infix` -/
+theorem buildView_seq (views : Nat → Option (View σ)) (k : Nat) (s : Seq) (st st1 : St σ K) (v : View σ) (F : Frame σ) (t : Seq)
+    (h : buildView views k s st = (.ok (v, F, t), st1)) :
+    ∃ sp tape', Space.fromRestrictions (triple s) v.restrs = .ok sp ∧ sp.constrainSequence (triple s) st.tape = .ok (t, tape') ∧
+      F.space = sp ∧ F.constraints = v.constraints ∧ views k = some v := by
+  simp only [buildView] at h
+  split at h
+  · simp at h
+  · rename_i v' hv
+    split at h
+    · simp at h
+    · rename_i sp hsp
+      split at h
+      · simp at h
+      · rename_i t' tape' hc
+        simp only [Prod.mk.injEq, Except.ok.injEq] at h
+        obtain ⟨⟨rfl, rfl, rfl⟩, _⟩ := h
+        exact ⟨sp, tape', hsp, hc, rfl, rfl, hv⟩
+
+/-! ### the failure side -/
+
+theorem evalList_err (ops : SpecOps σ K) (s : Seq) (cs : List σ) (st st' : St σ K) (e : Err)
+    (h : evalList ops s cs st = (.error e, st')) : ∃ n, e = .fault n := by
+  induction cs generalizing st st' e with
+  | nil => simp [evalList] at h
+  | cons c cs ih =>
+    simp only [evalList] at h
+    split at h
+    · rename_i e' st1 hev
+      simp only [Prod.mk.injEq, Except.error.injEq] at h
+      obtain ⟨n, hn⟩ := C01.evalAt_err ops c s st st1 e' hev
+      exact ⟨n, by rw [← h.1, hn]⟩
+    · split at h
+      · rename_i e' st2 hr
+        simp only [Prod.mk.injEq, Except.error.injEq] at h
+        obtain ⟨n, hn⟩ := ih _ _ _ hr
+        exact ⟨n, by rw [← h.1, hn]⟩
+      · simp at h
+
+/-- errors of view construction: no such view recorded, or an error of the mutation space -/
+def ViewErr (e : Err) : Prop := e = .tableMiss "view" ∨ ∃ se, e = Err.ofSpace se
+
+theorem buildView_err (views : Nat → Option (View σ)) (k : Nat) (s : Seq) (st st' : St σ K) (e : Err)
+    (h : buildView views k s st = (.error e, st')) : ViewErr e := by
+  simp only [buildView] at h
+  split at h
+  · simp only [Prod.mk.injEq, Except.error.injEq] at h; exact Or.inl h.1.symm
+  · split at h
+    · simp only [Prod.mk.injEq, Except.error.injEq] at h; exact Or.inr ⟨_, h.1.symm⟩
+    · split at h
+      · simp only [Prod.mk.injEq, Except.error.injEq] at h; exact Or.inr ⟨_, h.1.symm⟩
+      · simp at h
+
+/-- the circular final check fails only with `NoSolutionError`, an exception thrown by a specification, or while
+    a view is being constructed -/
+theorem circFinalCheck_err (ops : SpecOps σ K) (views : Nat → Option (View σ)) (k : Nat) (s : Seq) (st st' : St σ K) (e : Err)
+    (h : circFinalCheck ops views k s st = (.error e, st')) :
+    (∃ w, e = .noSolution w) ∨ (∃ n, e = .fault n) ∨ ViewErr e := by
+  simp only [circFinalCheck] at h
+  split at h
+  · rename_i e' st1 hb
+    simp only [Prod.mk.injEq, Except.error.injEq] at h
+    exact Or.inr (Or.inr (h.1 ▸ buildView_err views k s st st1 e' hb))
+  · split at h
+    · rename_i e' st2 hev
+      simp only [Prod.mk.injEq, Except.error.injEq] at h
+      exact Or.inr (Or.inl (h.1 ▸ evalList_err ops _ _ _ st2 e' hev))
+    · split at h
+      · simp at h
+      · split at h
+        · rename_i e' st3 hb
+          simp only [Prod.mk.injEq, Except.error.injEq] at h
+          exact Or.inr (Or.inr (h.1 ▸ buildView_err views _ s _ st3 e' hb))
+        · split at h
+          · rename_i e' st4 hev
+            simp only [Prod.mk.injEq, Except.error.injEq] at h
+            exact Or.inr (Or.inl (h.1 ▸ evalList_err ops _ _ _ st4 e' hev))
+          · simp only [Prod.mk.injEq, Except.error.injEq] at h
+            exact Or.inl ⟨_, h.1.symm⟩
+
+/-! ### length -/
+
+theorem closed_length (n : Nat) (sp : Space) (hmc : C15.ChoicesFit n sp.multichoices) :
+    C12.Closed (fun t => t.length = n) sp := by
+  constructor
+  · intro s vs hs hvs v hv
+    have hen := C15.allVariants_enumerates sp s vs (by rw [hs]; exact C12.mcfits_of_fit n _ hmc) hvs
+    exact ((hen.2.2.2 v).1 hv).1.trans hs
+  · intro k s t r t' hs hm
+    exact (C15.applyRandomMutations_spec sp k s t t' r (by rw [hs]; exact hmc) hm).1.trans hs
+
+/-- **the sequence keeps its length**: whatever the outcome of the central-copy loop, the view stays `3L` long
+    (edits keep the length, heuristics are assumed to, the majority rule does), so the middle third has length `L` -/
+theorem circ_keeps_length (ops : SpecOps σ K) (sett : Settings) (F : Frame σ) (cs : List σ) (L : Nat) (t : Seq) (st : St σ K)
+    (hfit : ∀ a b : Int, C15.ChoicesFit (3 * L) (F.space.localized a b).multichoices)
+    (hh : ∀ c h, ops.heuristic c = some h → ∀ view k, view.seq.length = 3 * L → (h view k).1.length = 3 * L)
+    (ht : t.length = 3 * L) :
+    (middle (resolveEach ops sett majority F cs t st).2.1 L).length = L := by
+  apply middle_length
+  have env : C12.Env (fun t => t.length = 3 * L) ops F majority :=
+    { localClosed := fun a b => closed_length (3 * L) _ (hfit a b)
+      heuristicOk := hh
+      replaceOk := fun u hu => by rw [majority_length u (by rw [hu]; exact ⟨L, rfl⟩)]; exact hu }
+  exact C12.resolveEach_inv _ ops sett majority F cs t st env ht
+
+/-! non-vacuity -/
+example : majority "ATGCATGGATGC".toList = "ATGGATGGATGG".toList := by decide
+example : consensus (triple "GATTACA".toList) = "GATTACA".toList := by decide
+example : ("CA".toList ++ "GA".toList) <:+: ("GATTACA".toList ++ "GATTACA".toList.take 3) := ⟨"GATTA".toList, "T".toList, by decide⟩
 
 end Dna.C13
